@@ -9,4 +9,4 @@ RULE = ("seeded histories of 20-200 string/key-space commands over a 10-key pool
 
 def run(tier):
     from . import expiry_mini
-    return modeldiff.run("C01", tier, "gen:gen_string_cmd", RULE + "; plus the sweeper-window sync-point scenario of C02 with string / key-space commands as client actions; 4% of the commands travel through redis.pcall in a script (effect on the dataset = that of the direct command); in 1 of 30 histories the server is saved, killed and restarted on its dump at a random step", extra_fn=expiry_mini.strings_in_the_sweeper_window, script_prob=0.04, restart_prob=0.03)
+    return modeldiff.run("C01", tier, "gen:gen_string_cmd", RULE + "; plus the sweeper-window sync-point scenario of C02 with string / key-space commands as client actions; 4% of the commands travel through redis.pcall in a script (effect on the dataset = that of the direct command); in 1 of 30 histories the server is saved, killed and restarted on its dump at a random step", extra_fn=expiry_mini.strings_in_the_sweeper_window, script_prob=0.04, restart_prob=0.06)
